@@ -362,6 +362,22 @@ def maxsize_pred(ctx):
     out = []
     n = 0
     rows = set()
+    # the limit is read from Connection.remote_max_packet_size inside the function, or handed in as an Option parameter
+    # that every caller fills from that field
+    limit_params = set()
+    for k in range(1, b.fn["arg_count"] + 1):
+        ty = b.locals[k]["ty"]
+        if "Option<" in ty and ("u32" in ty or "MaximumPacketSize" in ty):
+            callers_ok = []
+            for _, ub in ctx.client_units():
+                for i, t in ub.calls(r"Context::validate_packet_size$"):
+                    callers_ok.append(len(t["ops"]) >= k and any(x[0] == "field" and x[2] == "remote_max_packet_size" for x in ub.atoms(t["ops"][k - 1])))
+            if callers_ok and all(callers_ok):
+                limit_params.add(k)
+
+    def is_max(at):
+        return any(x[0] == "field" and x[2] == "remote_max_packet_size" for x in at) or any(x[0] == "param" and x[1] in limit_params for x in at)
+    slice_params = {k for k in range(1, b.fn["arg_count"] + 1) if b.locals[k]["ty"].replace(" ", "") in ("&[u8]", "&'a[u8]") or b.locals[k]["ty"].endswith("[u8]")}
     for path in b.paths(0):
         n += 1
         res = None
@@ -375,20 +391,19 @@ def maxsize_pred(ctx):
             c = Cond(b, a)
             truth = c.holds_on(s_)
             if truth is None:
-                if c.kind == "discr" and c.si.get("adt") == "std::option::Option" and \
-                        any(x[0] == "field" and x[2] == "remote_max_packet_size" for x in b.atoms(c.si["place"])):
+                if c.kind == "discr" and c.si.get("adt") == "std::option::Option" and is_max(b.atoms(c.si["place"])):
                     vals = b.edge_value(a, s_)
                     listed = [v for v, _ in c.si["targets"]]
                     absent = (0 in vals) or ("otherwise" in vals and 0 not in listed)
                 continue
-            if c.kind == "call" and c.callee == "is_none" and any(x[0] == "field" and x[2] == "remote_max_packet_size" for x in b.atoms(c.args[0])):
+            if c.kind == "call" and c.callee == "is_none" and is_max(b.atoms(c.args[0])):
                 absent = truth ^ c.neg
             elif c.kind == "cmp":
                 def is_len(op):
                     at = b.atoms(op)
-                    return any(x[0] == "call" and x[1].endswith("::len") for x in at) and any(x[0] == "param" and x[1] == 2 for x in at)
+                    return any(x[0] == "call" and x[1].endswith("::len") for x in at) and any(x[0] == "param" and x[1] in slice_params for x in at)
                 nn = c.cmp_norm(is_len)
-                if nn and any(x[0] == "field" and x[2] == "remote_max_packet_size" for x in b.atoms(nn[1])):
+                if nn and is_max(b.atoms(nn[1])):
                     op = nn[0]
                     if op in ("Le", "Gt"):
                         fits = truth if op == "Le" else (not truth)
